@@ -52,7 +52,7 @@ def run(ctx):
     st = core.prepare(ctx, MODULES)
     ctx.assumptions += [
         "shared language only: no spawn, no trigger statements, no -> / ~> member access",
-        "programs inside the fragment of the partial theorems (see C01); open findings V12, V13, V23, V24, X13 are not generated",
+        "programs inside the fragment of the partial theorems (see C01); the zones of the open findings V12, V13, V23 are not generated",
     ]
     if not st["harness"] or not st["dump"] or not st["model"]:
         ctx.violation({"kind": "build", "log": st.get("log", "")[-3000:]}, "harness, table dump or Lean model no longer builds", no_input=True)
